@@ -20,6 +20,12 @@ What is read (ast only, nothing is imported or executed):
     method ...) these two booleans are MEASURED instead: a subprocess runs the real method on a
     bare layer object (_probe_registry).  Either way the whole table is validated by the
     correspondence run over request/reply histories.
+  * YowProtocolLayer._sendIq / YowInterfaceLayer._sendIq: is the request put into iqRegistry BEFORE it is
+    handed down (`self.iqRegistry[..] = ..` precedes `self.toLower(..)` / `self.entityToLower(..)`)?
+    -> reg_first / reg_first_iface.  When the method is not in that shape (helper function, try/else ...)
+    the fact is MEASURED: a subprocess calls the real _sendIq on a bare layer object whose toLower looks
+    into the registry (_probe_send).  Validated by the correspondence run over histories in which the
+    bottom of the stack delivers replies from inside its send().
 Unrecognised source raises TranslateError; regenerate() then writes a stub table (nothing is
 routed) so that the model still builds, every theorem about the table fails and the
 correspondence disagrees -- tie broken.
@@ -377,19 +383,86 @@ print("PROBE " + json.dumps(out))
 """
 
 
-def _probe_registry(repo):
-    """Behavioural fallback for the two facts read from processIqRegistry when its source is not in a recognised
-    shape: run the two real methods on a bare layer object and observe (a) whether a get/set iq carrying a pending
-    id leaves the request pending, (b) whether the entry is still registered while the callback runs."""
+def _run_probe(repo, code, what):
     import subprocess, sys, json
     env = dict(os.environ, PYTHONPATH=repo, PYTHONHASHSEED="0", PYTHONDONTWRITEBYTECODE="1")
-    p = subprocess.run([sys.executable, "-c", _PROBE], env=env, cwd=repo, stdout=subprocess.PIPE, stderr=subprocess.PIPE,
+    p = subprocess.run([sys.executable, "-c", code], env=env, cwd=repo, stdout=subprocess.PIPE, stderr=subprocess.PIPE,
                        text=True, timeout=120)
     for line in p.stdout.splitlines():
         if line.startswith("PROBE "):
             return json.loads(line[6:])
-    raise TranslateError("processIqRegistry: source not recognised and the behavioural probe failed: %s"
-                         % (p.stderr.strip().splitlines() or [p.stdout.strip() or "no output"])[-1][:300])
+    raise TranslateError("%s: source not recognised and the behavioural probe failed: %s"
+                         % (what, (p.stderr.strip().splitlines() or [p.stdout.strip() or "no output"])[-1][:300]))
+
+
+def _probe_registry(repo):
+    """Behavioural fallback for the two facts read from processIqRegistry when its source is not in a recognised
+    shape: run the two real methods on a bare layer object and observe (a) whether a get/set iq carrying a pending
+    id leaves the request pending, (b) whether the entry is still registered while the callback runs."""
+    return _run_probe(repo, _PROBE, "processIqRegistry")
+
+
+def _reg_first(repo, rel, clsname):
+    """does <clsname>._sendIq put the request into self.iqRegistry BEFORE handing it down?  Recognised shape:
+    among the simple statements of the method (if/try/with flattened) exactly one `self.iqRegistry[k] = v`
+    and exactly one statement calling self.toLower(..) / self.entityToLower(..), nothing else touching the
+    registry; anything else raises (the caller then measures)."""
+    tree = _parse(repo, rel)
+    m = _method(_cls(tree, clsname, rel), "_sendIq", rel)
+    reg, low = [], []
+    for idx, st in enumerate(_leaves(m.body)):
+        is_reg = isinstance(st, ast.Assign) and len(st.targets) == 1 and isinstance(st.targets[0], ast.Subscript) \
+            and _is_self_attr(st.targets[0].value, "iqRegistry")
+        touches = any(_is_self_attr(n, "iqRegistry") for n in ast.walk(st))
+        if is_reg:
+            reg.append(idx)
+        elif touches:
+            raise TranslateError("%s: %s._sendIq uses iqRegistry in an unrecognised way: %s"
+                                 % (rel, clsname, ast.unparse(st)[:80]))
+        if any(isinstance(n, ast.Call) and (_is_self_attr(n.func, "toLower") or _is_self_attr(n.func, "entityToLower"))
+               for n in ast.walk(st)):
+            low.append(idx)
+    if len(reg) != 1 or len(low) != 1 or reg[0] == low[0]:
+        raise TranslateError("%s: %s._sendIq: %d registrations, %d hand-downs" % (rel, clsname, len(reg), len(low)))
+    return reg[0] < low[0]
+
+
+_PROBE_SEND = r"""
+import sys, json
+import six, importlib.util
+_imp = six._importer; _cls = type(_imp)
+if not hasattr(_cls, 'find_spec'):
+    _cls.find_spec = lambda self, fullname, path=None, target=None: importlib.util.spec_from_loader(fullname, self) if fullname in self.known_modules else None
+    _cls.create_module = lambda self, spec: self.load_module(spec.name)
+    _cls.exec_module = lambda self, module: None
+if _imp not in sys.meta_path: sys.meta_path.append(_imp)
+from yowsup.layers.protocol_iq.protocolentities import IqProtocolEntity
+out = {}
+def probe(make_layer, name):
+    # a lower layer whose send() looks into the sender's registry: is the request already there?
+    layer = make_layer()
+    seen = []
+    def lower(data, layer=layer, seen=seen):
+        seen.append("x1" in layer.iqRegistry)
+    layer.toLower = lower
+    req = IqProtocolEntity("w", _id="x1", _type="get", to="s.whatsapp.net")
+    layer._sendIq(req, lambda a, b: None, lambda a, b: None)
+    if len(seen) != 1:
+        raise SystemExit("_sendIq handed the request down %d times" % len(seen))
+    if "x1" not in layer.iqRegistry:
+        raise SystemExit("_sendIq did not register the request")
+    out[name] = bool(seen[0])
+from yowsup.layers import YowProtocolLayer
+probe(lambda: YowProtocolLayer({}), "protocol")
+from yowsup.layers.interface import YowInterfaceLayer
+probe(lambda: YowInterfaceLayer(), "interface")
+print("PROBE " + json.dumps(out))
+"""
+
+
+def _probe_send(repo):
+    """Behavioural fallback for the registration order of the two _sendIq functions."""
+    return _run_probe(repo, _PROBE_SEND, "_sendIq")
 
 
 def translate(repo=None):
@@ -462,10 +535,24 @@ def translate(repo=None):
         probed = probed or _probe_registry(repo)
         strict_i, late_i = probed["interface"]
         info["registry_flags_interface"] = "measured by probe (source shape not recognised: %s)" % e
+    sprobed = None
+    try:
+        regf = _reg_first(repo, "yowsup/layers/__init__.py", "YowProtocolLayer")
+    except TranslateError as e:
+        sprobed = _probe_send(repo)
+        regf = sprobed["protocol"]
+        info["register_before_send_protocol"] = "measured by probe (source shape not recognised: %s)" % e
+    try:
+        regf_i = _reg_first(repo, "yowsup/layers/interface/interface.py", "YowInterfaceLayer")
+    except TranslateError as e:
+        sprobed = sprobed or _probe_send(repo)
+        regf_i = sprobed["interface"]
+        info["register_before_send_interface"] = "measured by probe (source shape not recognised: %s)" % e
     info.update({"routes": {k: routes.get(k, "RNone") for k in AKINDS},
                  "lib": {k: list(v) for k, v in lib.items()}, "strict_reply": strict,
-                 "strict_iface": strict_i, "late_delete": late, "late_delete_iface": late_i})
-    return routes, lib, (strict, strict_i, late, late_i), info
+                 "strict_iface": strict_i, "late_delete": late, "late_delete_iface": late_i,
+                 "register_before_send": regf, "register_before_send_iface": regf_i})
+    return routes, lib, (strict, strict_i, late, late_i, regf, regf_i), info
 
 
 def _b(x):
@@ -484,7 +571,8 @@ def render(routes, lib, flags, note):
         lay, hs, he = lib[lk]
         o.append("  | %s => (%s, (%s, %s))" % (lk, lay, _b(hs), _b(he)))
     o += ["  end.", "",
-          "(* strict_reply strict_iface late_delete late_delete_iface *)",
+          "(* strict_reply strict_iface late_delete late_delete_iface reg_first reg_first_iface",
+          "   (reg_first* = register_before_send: _sendIq puts the request into iqRegistry before toLower) *)",
           "Definition gen_cfg : cfg := mkcfg gen_route gen_lib_route %s." % " ".join(_b(f) for f in flags), ""]
     return "\n".join(o)
 
@@ -504,7 +592,7 @@ def regenerate(repo=None):
     except TranslateError as e:
         stub_lib = {lk: ("LCtl", False, False) for lk in
                     ["LKFetchCtl", "LKFetchSend", "LKFetchRecv", "LKUpload", "LKGroupInfo", "LKPing"]}
-        _write(render({}, stub_lib, (False, False, False, False), "STUB: source not recognised: %s" % str(e).replace("*)", "* )")))
+        _write(render({}, stub_lib, (False, False, False, False, False, False), "STUB: source not recognised: %s" % str(e).replace("*)", "* )")))
         raise
     _write(render(routes, lib, flags, "repo: %s" % (repo or REPO)))
     return info
